@@ -260,6 +260,10 @@ Definition lines_same (a b : list lineid) : bool := list_eqb lineid_eqb (sort_l 
 Definition obs_eqb (a b : cli_obs) : bool :=
   lines_same (co_lines a) (co_lines b) && Z.eqb (co_exit a) (co_exit b) && Nat.eqb (co_nlog a) (co_nlog b).
 
+(* the name the property text gives to standard input, written out (the model uses the translator's
+   constant; the boolean form insists on the literal) *)
+Definition STDIN_LIT : bytes := [60; 115; 116; 100; 105; 110; 62]%N.   (* "<stdin>" *)
+
 Section Check.
 Variable fs : path -> node.
 Variable glob : path -> option (list path).
@@ -274,7 +278,7 @@ Definition C06_check (i : cli_in) (o : cli_obs) : bool :=
   if use_stdin (ci_args i) then
     if ci_gunzip i then Z.eqb (co_exit o) exit_usage && match co_lines o with [] => true | _ => false end && (1 <=? co_nlog o)
     else
-      let keys := filter (matched_b (ci_mode i)) (numbered StdinName 1%N (lines_spec (ci_stdin i))) in
+      let keys := filter (matched_b (ci_mode i)) (numbered STDIN_LIT 1%N (lines_spec (ci_stdin i))) in
       lines_same (co_lines o) (shown (ci_mode i) keys) &&
       Z.eqb (co_exit o) (exit_code 0 (parse_errors (ci_mode i) keys) (length keys))
   else
